@@ -85,7 +85,7 @@ theorem getD_of_getElem? (ks : List KeyRec) (j : Nat) (kr d : KeyRec) (h : ks[j]
 
 /-- for a compressed key the SegWit entry of the table is what make_wallet computes (a key that is not compressed has none) -/
 theorem mkKey_seg_of_33 (H : Addr.Hashes) (b : Bool) (p : Bytes) (h : p.length = 33) :
-    (mkKey H b p).segH160 = if b then zero20 else H.hash160 ([0, 20] ++ H.hash160 p) := by
+    (mkKey H b p).segH160 = if b then [] else H.hash160 ([0, 20] ++ H.hash160 p) := by
   simp [mkKey, h]
 
 theorem keyTable_getElem? (H : Addr.Hashes) (b : Bool) (pubs : List Bytes) (k : Nat) (kr : KeyRec)
@@ -186,28 +186,22 @@ inductive OwnScript (c : Cfg) (ks : List KeyRec) : Bytes → Prop
   | p2sh (k : Nat) (kr : KeyRec) : ks[k]? = some kr → c.bech32 = false → OwnScript c ks (p2shScript kr.segH160)
   | p2tr (k : Nat) (kr : KeyRec) : ks[k]? = some kr → OwnScript c ks (p2trScript ((kr.pub.drop 1).take 32))
 
-def NoCross (ks : List KeyRec) : Prop :=
-  ∀ (k k' : Nat) (kr kr' : KeyRec), ks[k]? = some kr → ks[k']? = some kr' → kr.h160 ≠ kr'.segH160
-
 theorem ver_ne (tn : Bool) : verPubkey tn ≠ verScript tn := by cases tn <;> decide
 
-theorem lookup_h160 (ks : List KeyRec) (k : Nat) (kr : KeyRec) (hk : ks[k]? = some kr) (hNC : NoCross ks) :
-    ∃ j krj, hashToKeyIdx ks kr.h160 = some j ∧ ks[j]? = some krj ∧ krj.h160 = kr.h160 := by
-  obtain ⟨j, krj, h1, h2, h3⟩ := findIdx?_of_getElem? (fun x : KeyRec => x.h160 == kr.h160 || x.segH160 == kr.h160) ks k kr hk (by simp)
-  refine ⟨j, krj, h1, h2, ?_⟩
-  simp only [Bool.or_eq_true, beq_iff_eq] at h3
-  rcases h3 with h3 | h3
-  · exact h3
-  · exact absurd h3.symm (hNC k j kr krj hk h2)
+/-- pubhash_to_key_idx finds a key with THAT public-key hash (no hypothesis about other hashes of the table: since the
+    fix the look-up reads nothing else) -/
+theorem lookup_h160 (ks : List KeyRec) (k : Nat) (kr : KeyRec) (hk : ks[k]? = some kr) :
+    ∃ j krj, pubHashToKeyIdx ks kr.h160 = some j ∧ ks[j]? = some krj ∧ krj.h160 = kr.h160 := by
+  obtain ⟨j, krj, h1, h2, h3⟩ := findIdx?_of_getElem? (fun x : KeyRec => x.h160 == kr.h160) ks k kr hk (by simp)
+  exact ⟨j, krj, h1, h2, by simpa using h3⟩
 
-theorem lookup_seg (ks : List KeyRec) (k : Nat) (kr : KeyRec) (hk : ks[k]? = some kr) (hNC : NoCross ks) :
-    ∃ j krj, hashToKeyIdx ks kr.segH160 = some j ∧ ks[j]? = some krj ∧ krj.segH160 = kr.segH160 := by
-  obtain ⟨j, krj, h1, h2, h3⟩ := findIdx?_of_getElem? (fun x : KeyRec => x.h160 == kr.segH160 || x.segH160 == kr.segH160) ks k kr hk (by simp)
+theorem lookup_seg (ks : List KeyRec) (k : Nat) (kr : KeyRec) (hk : ks[k]? = some kr) (hne : kr.segH160 ≠ []) :
+    ∃ j krj, scriptHashToKeyIdx ks kr.segH160 = some j ∧ ks[j]? = some krj ∧ krj.segH160 = kr.segH160 := by
+  obtain ⟨j, krj, h1, h2, h3⟩ := findIdx?_of_getElem? (fun x : KeyRec => x.segH160 != [] && x.segH160 == kr.segH160) ks k kr hk
+    (by simp [hne])
   refine ⟨j, krj, h1, h2, ?_⟩
-  simp only [Bool.or_eq_true, beq_iff_eq] at h3
-  rcases h3 with h3 | h3
-  · exact absurd h3 (hNC j k krj kr h2 hk)
-  · exact h3
+  simp only [Bool.and_eq_true, beq_iff_eq] at h3
+  exact h3.2
 
 theorem lookup_xo (ks : List KeyRec) (k : Nat) (kr : KeyRec) (hk : ks[k]? = some kr) :
     ∃ j krj, xoToKeyIdx ks ((kr.pub.drop 1).take 32) = some j ∧ ks[j]? = some krj ∧
@@ -216,41 +210,42 @@ theorem lookup_xo (ks : List KeyRec) (k : Nat) (kr : KeyRec) (hk : ks[k]? = some
   exact ⟨j, krj, h1, h2, by simpa using h3⟩
 
 theorem signInput_p2pkh (H : Addr.Hashes) (c : Cfg) (ks : List KeyRec) (sig : SigFn) (i k : Nat) (kr : KeyRec) (v : Nat)
-    (hk : ks[k]? = some kr) (hl : kr.h160.length = 20) (hNC : NoCross ks) :
+    (hk : ks[k]? = some kr) (hl : kr.h160.length = 20) :
     ∃ j krj, ks[j]? = some krj ∧ krj.h160 = kr.h160 ∧
       signInput H c ks sig i (some { value := v, script := p2pkhScript kr.h160 }) =
         { scriptSig := some (push1 (sig i (.legacy j (p2pkhScript kr.h160)) ++ [1]) ++ push1 krj.pub),
           witness := none, signed := true } := by
-  obtain ⟨j, krj, h1, h2, h3⟩ := lookup_h160 ks k kr hk hNC
+  obtain ⟨j, krj, h1, h2, h3⟩ := lookup_h160 ks k kr hk
   refine ⟨j, krj, h2, h3, ?_⟩
   unfold signInput
-  simp only [fromPkScript_p2pkh H _ hl, isWitnessProgram_p2pkh _ hl, h1, getD_of_getElem? ks j krj _ h2]
   have hv := ver_ne c.testnet
-  simp [hv]
+  simp only [fromPkScript_p2pkh H _ hl, isWitnessProgram_p2pkh _ hl, hv, ↓reduceIte, h1, getD_of_getElem? ks j krj _ h2]
+  simp
 
 theorem signInput_p2wpkh (H : Addr.Hashes) (c : Cfg) (ks : List KeyRec) (sig : SigFn) (i k : Nat) (kr : KeyRec) (v : Nat)
-    (hk : ks[k]? = some kr) (hl : kr.h160.length = 20) (hNC : NoCross ks) (adr : Addr.Addr)
+    (hk : ks[k]? = some kr) (hl : kr.h160.length = 20) (adr : Addr.Addr)
     (ha : Addr.fromPkScript H (p2wpkhScript kr.h160) c.testnet = some adr) :
     ∃ j krj, ks[j]? = some krj ∧ krj.h160 = kr.h160 ∧
       signInput H c ks sig i (some { value := v, script := p2wpkhScript kr.h160 }) =
         { scriptSig := none, witness := some [sig i (.witv0 j (p2pkhScript krj.h160) v) ++ [1], krj.pub],
           signed := true } := by
-  obtain ⟨j, krj, h1, h2, h3⟩ := lookup_h160 ks k kr hk hNC
+  obtain ⟨j, krj, h1, h2, h3⟩ := lookup_h160 ks k kr hk
   refine ⟨j, krj, h2, h3, ?_⟩
   unfold signInput
   simp only [ha, isWitnessProgram_p2wpkh _ hl, hl, h1, getD_of_getElem? ks j krj _ h2]
   simp
 
 theorem signInput_p2sh (H : Addr.Hashes) (c : Cfg) (ks : List KeyRec) (sig : SigFn) (i k : Nat) (kr : KeyRec) (v : Nat)
-    (hk : ks[k]? = some kr) (hl : kr.segH160.length = 20) (hNC : NoCross ks) (hb : c.bech32 = false) :
+    (hk : ks[k]? = some kr) (hl : kr.segH160.length = 20) (hb : c.bech32 = false) :
     ∃ j krj, ks[j]? = some krj ∧ krj.segH160 = kr.segH160 ∧
       signInput H c ks sig i (some { value := v, script := p2shScript kr.segH160 }) =
         { scriptSig := some ([22, 0, 20] ++ krj.h160),
           witness := some [sig i (.witv0 j (p2pkhScript krj.h160) v) ++ [1], krj.pub], signed := true } := by
-  obtain ⟨j, krj, h1, h2, h3⟩ := lookup_seg ks k kr hk hNC
+  have hne : kr.segH160 ≠ [] := by intro e; rw [e] at hl; simp at hl
+  obtain ⟨j, krj, h1, h2, h3⟩ := lookup_seg ks k kr hk hne
   refine ⟨j, krj, h2, h3, ?_⟩
   unfold signInput
-  simp only [fromPkScript_p2sh H _ hl, isWitnessProgram_p2sh _ hl, h1, getD_of_getElem? ks j krj _ h2]
+  simp only [fromPkScript_p2sh H _ hl, isWitnessProgram_p2sh _ hl, ↓reduceIte, h1, getD_of_getElem? ks j krj _ h2]
   simp [hb, h3]
 
 theorem signInput_p2tr (H : Addr.Hashes) (c : Cfg) (ks : List KeyRec) (sig : SigFn) (i k : Nat) (kr : KeyRec) (v : Nat)
@@ -300,7 +295,6 @@ theorem verify_aux (H : Addr.Hashes) (C : Crypto) (S : Signer) (c : Cfg) (pubs :
     (sign_verify_schnorr : ∀ k kr, (keyTable H c.bech32 pubs)[k]? = some kr → ∀ d,
         C.schnorrVerify ((kr.pub.drop 1).take 32) (S.schnorr k d) d = true)
     (schnorr_len : ∀ k d, (S.schnorr k d).length = 64)
-    (no_cross : NoCross (keyTable H c.bech32 pubs))
     (pub_len : ∀ p ∈ pubs, p.length = 33)
     (hwit : t.wit = none) (hin : t.ins[i]? = some inp) (hsp : spent[i]? = some uo) (hms : ms i = none)
     (hown : OwnScript c (keyTable H c.bech32 pubs) uo.script)
@@ -309,15 +303,13 @@ theorem verify_aux (H : Addr.Hashes) (C : Crypto) (S : Signer) (c : Cfg) (pubs :
     verifyInput C (signTx H c (keyTable H c.bech32 pubs) (sigOf C S spent) ms t (spent.map some)).1 spent i = true := by
   obtain ⟨h1, h2, h3⟩ := signed_at H c (keyTable H c.bech32 pubs) (sigOf C S spent) ms t spent i inp uo hwit hin hsp hms
   have keyfacts : ∀ (k : Nat) (kr : KeyRec), (keyTable H c.bech32 pubs)[k]? = some kr →
-      kr.pub.length = 33 ∧ kr.h160 = H.hash160 kr.pub ∧ kr.h160.length = 20 ∧ kr.segH160.length = 20 ∧
+      kr.pub.length = 33 ∧ kr.h160 = H.hash160 kr.pub ∧ kr.h160.length = 20 ∧ (c.bech32 = false → kr.segH160.length = 20) ∧
       (c.bech32 = false → kr.segH160 = H.hash160 ([0, 20] ++ kr.h160)) := by
     intro k kr hk
     obtain ⟨p, hp, rfl⟩ := keyTable_getElem? H c.bech32 pubs k kr hk
     have hp33 : p.length = 33 := pub_len p (List.mem_of_getElem? hp)
     refine ⟨hp33, rfl, hash_len _, ?_, ?_⟩
-    · rw [mkKey_seg_of_33 H _ p hp33]; split
-      · simp [zero20]
-      · exact hash_len _
+    · intro hb; rw [mkKey_seg_of_33 H _ p hp33]; simp [hb, hash_len]
     · intro hb; rw [mkKey_seg_of_33 H _ p hp33]; simp [mkKey, hb]
   unfold verifyInput
   rw [h1, hsp]
@@ -327,7 +319,7 @@ theorem verify_aux (H : Addr.Hashes) (C : Crypto) (S : Signer) (c : Cfg) (pubs :
   cases hown with
   | p2pkh k kr hk =>
     obtain ⟨_, _, hl, _, _⟩ := keyfacts k kr hk
-    obtain ⟨j, krj, hj, hje, hsi⟩ := signInput_p2pkh H c _ (sigOf C S spent (skeleton t)) i k kr val hk hl no_cross
+    obtain ⟨j, krj, hj, hje, hsi⟩ := signInput_p2pkh H c _ (sigOf C S spent (skeleton t)) i k kr val hk hl
     obtain ⟨hjl, hjh, _, _, _⟩ := keyfacts j krj hj
     rw [hsi]
     simp only [sigOf]
@@ -344,7 +336,7 @@ theorem verify_aux (H : Addr.Hashes) (C : Crypto) (S : Signer) (c : Cfg) (pubs :
   | p2wpkh k kr hk =>
     obtain ⟨_, _, hl, _, _⟩ := keyfacts k kr hk
     obtain ⟨adr, ha⟩ := Option.isSome_iff_exists.mp haddr
-    obtain ⟨j, krj, hj, hje, hsi⟩ := signInput_p2wpkh H c _ (sigOf C S spent (skeleton t)) i k kr val hk hl no_cross adr ha
+    obtain ⟨j, krj, hj, hje, hsi⟩ := signInput_p2wpkh H c _ (sigOf C S spent (skeleton t)) i k kr val hk hl adr ha
     obtain ⟨hjl, hjh, _, _, _⟩ := keyfacts j krj hj
     rw [hsi]
     simp only [sigOf]
@@ -363,8 +355,9 @@ theorem verify_aux (H : Addr.Hashes) (C : Crypto) (S : Signer) (c : Cfg) (pubs :
     rw [← hje]
     exact ecdsaOk_intro C _ _ _ dl.1 (sign_verify_ecdsa j krj hj _)
   | p2sh k kr hk hb =>
-    obtain ⟨_, _, _, hl, _⟩ := keyfacts k kr hk
-    obtain ⟨j, krj, hj, hje, hsi⟩ := signInput_p2sh H c _ (sigOf C S spent (skeleton t)) i k kr val hk hl no_cross hb
+    obtain ⟨_, _, _, hl', _⟩ := keyfacts k kr hk
+    have hl := hl' hb
+    obtain ⟨j, krj, hj, hje, hsi⟩ := signInput_p2sh H c _ (sigOf C S spent (skeleton t)) i k kr val hk hl hb
     obtain ⟨hjl, hjh, hjl20, _, hjs⟩ := keyfacts j krj hj
     rw [hsi]
     simp only [sigOf]
@@ -409,14 +402,12 @@ theorem outScript_fromPkScript_own (H : Addr.Hashes) (c : Cfg) (pubs : List Byte
     (ho : OwnScript c (keyTable H c.bech32 pubs) scr) (ha : Addr.fromPkScript H scr c.testnet = some a) :
     Addr.outScript a = some scr := by
   have keyfacts : ∀ (k : Nat) (kr : KeyRec), (keyTable H c.bech32 pubs)[k]? = some kr →
-      kr.pub.length = 33 ∧ kr.h160.length = 20 ∧ kr.segH160.length = 20 := by
+      kr.pub.length = 33 ∧ kr.h160.length = 20 ∧ (c.bech32 = false → kr.segH160.length = 20) := by
     intro k kr hk
     obtain ⟨p, hp, rfl⟩ := keyTable_getElem? H c.bech32 pubs k kr hk
     have hp33 : p.length = 33 := pub_len p (List.mem_of_getElem? hp)
     refine ⟨hp33, hash_len _, ?_⟩
-    rw [mkKey_seg_of_33 H _ p hp33]; split
-    · simp [zero20]
-    · exact hash_len _
+    intro hb; rw [mkKey_seg_of_33 H _ p hp33]; simp [hb, hash_len]
   cases ho with
   | p2pkh k kr hk =>
     obtain ⟨_, hl, _⟩ := keyfacts k kr hk
@@ -425,7 +416,8 @@ theorem outScript_fromPkScript_own (H : Addr.Hashes) (c : Cfg) (pubs : List Byte
     subst ha
     cases c.testnet <;> simp [Addr.outScript, verPubkey, p2pkhScript]
   | p2sh k kr hk hb =>
-    obtain ⟨_, _, hl⟩ := keyfacts k kr hk
+    obtain ⟨_, _, hl'⟩ := keyfacts k kr hk
+    have hl := hl' hb
     rw [fromPkScript_p2sh H _ hl] at ha
     simp only [Option.some.injEq] at ha
     subst ha
